@@ -174,8 +174,17 @@ func (w *wal) read() (WALBatch, error) {
 	reader := bufio.NewReader(w.reader)
 	tupleLenBuf := make([]byte, 4)
 
+	// a crash while a record is being appended leaves a partial record at the
+	// end of the log. that record was never acknowledged: it ends the log.
+	torn := false
+	// size of the complete records read so far
+	validLen := int64(0)
+
 	for {
 		if n, err := io.ReadFull(reader, tupleLenBuf); err == io.EOF {
+			break
+		} else if err == io.ErrUnexpectedEOF {
+			torn = true
 			break
 		} else if err != nil {
 			return ret, err
@@ -189,7 +198,10 @@ func (w *wal) read() (WALBatch, error) {
 		}
 
 		tupleBuf := make([]byte, tupleLen)
-		if n, err := io.ReadFull(reader, tupleBuf); err != nil {
+		if n, err := io.ReadFull(reader, tupleBuf); err == io.EOF || err == io.ErrUnexpectedEOF {
+			torn = true
+			break
+		} else if err != nil {
 			return ret, err
 		} else if n != tupleLen {
 			panic("bytes read differs from expected buffer length")
@@ -200,6 +212,17 @@ func (w *wal) read() (WALBatch, error) {
 			return ret, err
 		}
 		ret = append(ret, w)
+		validLen += int64(len(tupleLenBuf) + tupleLen)
+	}
+
+	if torn {
+		// cut the partial record off, so that the next append starts at a
+		// record boundary
+		if f, ok := w.reader.(interface{ Truncate(size int64) error }); ok {
+			if err := f.Truncate(validLen); err != nil {
+				return ret, err
+			}
+		}
 	}
 
 	return ret, nil
